@@ -2,10 +2,15 @@ package checks
 
 import (
 	"bytes"
+	"context"
 	"fmt"
 	"math"
+	"os"
+	"os/exec"
+	"path/filepath"
 	"sort"
 	"strings"
+	"sync"
 	"time"
 
 	"github.com/nats-io/nats.go"
@@ -47,6 +52,25 @@ var c15Texts = []yamlText{
 	{"format", "zwsp\u200bx"}, {"format", "shy\u00adx"}, {"format", "lrm\u200ex"}, {"format", "wj\u2060x"}, {"format", "\ufffdrepl"}, {"format", "\ufff9ia"}, {"format", "nel\u0085x"}, {"format", "\ue000pua"},
 }
 
+func init() {
+	// texts in which a ':' follows k characters that need an escape sequence, k-1 characters before the end
+	// (a parser that loses count of the escapes would look for a mapping key exactly there), and a few free forms
+	for k := 2; k <= 9; k++ {
+		for _, e := range []string{"\"", "\\", "\n", "\t"} {
+			c15Texts = append(c15Texts, yamlText{"colon-after-escapes", strings.Repeat(e, k) + ":" + strings.Repeat("e", k-2)})
+		}
+		c15Texts = append(c15Texts, yamlText{"colon-after-escapes", strings.Repeat("\"q\" ", k/2) + strings.Repeat("\\", k%2) + ": " + strings.Repeat("e", k)[:(k+abs(k-3)-3)/2]})
+	}
+	c15Texts = append(c15Texts, yamlText{"colon-after-escapes", `say "a" and "b" then "c": end`}, yamlText{"colon-after-escapes", `C:\dir\sub\file: x`}, yamlText{"colon-after-escapes", "a\nb\nc: d"})
+}
+
+func abs(x int) int {
+	if x < 0 {
+		return -x
+	}
+	return x
+}
+
 type valCase struct {
 	Class string
 	V     float64
@@ -73,10 +97,54 @@ func c15PointKey(p data.Point) string {
 	return fmt.Sprintf("%q/%q v=%v txt=%q tomb=%d", p.Type, k, p.Value, p.Text, p.Tombstone)
 }
 
+// the siot command line tool, built once per run from the repository the harness itself is built from
+var (
+	siotOnce sync.Once
+	siotBin  string
+	siotErr  error
+)
+
+func siotCLI() (string, error) {
+	siotOnce.Do(func() {
+		repo := os.Getenv("VERIF_REPO")
+		if repo == "" {
+			repo = "/repo"
+		}
+		dir, err := os.MkdirTemp("", "verif-siot-")
+		if err != nil {
+			siotErr = err
+			return
+		}
+		siotBin = filepath.Join(dir, "siot")
+		cmd := exec.Command("go", "build", "-o", siotBin, "./cmd/siot")
+		cmd.Dir = repo
+		if out, err := cmd.CombinedOutput(); err != nil {
+			siotErr = fmt.Errorf("go build ./cmd/siot: %v: %.400s", err, out)
+		}
+	})
+	return siotBin, siotErr
+}
+
+// runSiot runs the tool with stdin and returns stdout, stderr and the exit error.
+func runSiot(stdin []byte, args ...string) ([]byte, string, error) {
+	bin, err := siotCLI()
+	if err != nil {
+		return nil, "", err
+	}
+	ctx, cancel := context.WithTimeout(context.Background(), 90*time.Second)
+	defer cancel()
+	cmd := exec.CommandContext(ctx, bin, args...)
+	cmd.Stdin = bytes.NewReader(stdin)
+	var so, se bytes.Buffer
+	cmd.Stdout, cmd.Stderr = &so, &se
+	err = cmd.Run()
+	return so.Bytes(), se.String(), err
+}
+
 func runC15(tier string, _ []string) int {
 	c := vlib.NewCtx("C15", tier, "exploration")
 	vlib.SetPortBlock(15)
-	c.SetRule("per case: a generated tree (depth <=5, fan-out <=6, <=60 nodes, mirrors inside the tree, deleted children, tombstoned points, keys ''/'0'/index/map keys, nodeID cross-references inside and outside the tree) whose point texts come from a pool of YAML-significant / Unicode / control / multi-line strings and whose values cover integers, fractions, exponents and +-Inf, built on a live instance; ExportNodes (the result is held while three more exports are made and must not change) then ImportNodes (same parent, other parent, root of a second instance; with and without preserveIDs); the imported subtree is read back and compared with the source by matching nodes through a unique marker point: shape, types, point multisets (type, key ''=='0', value, text, tombstone), edge points (tombstone 0 == absent), id map bijective and applied to nodeID texts, ' (import)' on the top description only, deleted nodes absent; in every second case without id preservation the same bytes are imported a second time next to the first copy and compared again. distinct = (text classes present, value classes present, target kind, preserveIDs)")
+	c.SetRule("per case: a generated tree (depth <=5, fan-out <=6, <=60 nodes, mirrors inside the tree, deleted children, tombstoned points, keys ''/'0'/index/map keys, nodeID cross-references inside and outside the tree, live and tombstoned) whose point texts come from a pool of YAML-significant / Unicode / control / multi-line strings and whose values cover integers, fractions, exponents and +-Inf, built on a live instance; ExportNodes (the result is held while three more exports are made and must not change) then ImportNodes (same parent, other parent, root of a second instance; with and without preserveIDs); the imported subtree is read back and compared with the source by matching nodes through a unique marker point: shape, types, point multisets (type, key ''=='0', value, text, tombstone), edge points (tombstone 0 == absent), id map bijective and applied to nodeID texts, ' (import)' on the top description only, deleted nodes absent; in every second case without id preservation the same bytes are imported a second time next to the first copy and compared again. Every third tree carries one text of 66-130 KiB on its top node; every sixth case exports and imports through the siot command line tool (built from the same tree): its export must be byte for byte the library's, and what its import creates is compared like any other copy. distinct = (text classes present, value classes present, target kind, preserveIDs)")
 	c.Assume("times, origins and data are not compared (import re-stamps; the property lists type, key, value, text, tombstone)")
 	nTrees := c.N(30, 500)
 	vlib.Parallel(nTrees, 5, func(i int) {
@@ -179,6 +247,23 @@ func runC15(tier string, _ []string) int {
 			c.Violate("store:legal-write-refused", err.Error(), nil)
 			return
 		}
+		viaCLI := i%6 == 5
+		if i%3 == 2 {
+			// one text far longer than any line buffer (66-130 KiB on one line), with further points and all the
+			// children behind it
+			words := []string{"lorem ", "ipsum: ", "dolor, ", "sit #", "amet' ", "\"q\" "}
+			var sb strings.Builder
+			for sb.Len() < 66000+r.Intn(64000) {
+				sb.WriteString(words[r.Intn(len(words))])
+			}
+			hp := data.Point{Type: "note", Key: "huge", Time: now(), Text: sb.String() + "end"}
+			if err := send(vlib.NodeSubj(top.ID), data.Points{hp}); err != nil {
+				c.Violate("store:legal-write-refused", err.Error(), nil)
+				return
+			}
+			top.Points = append(top.Points, hp)
+			usedT["huge"] = true
+		}
 		deleted := map[string]bool{}
 		var build func(parent *c15Node, depth int) error
 		build = func(parent *c15Node, depth int) error {
@@ -225,6 +310,9 @@ func runC15(tier string, _ []string) int {
 				to = outside
 			}
 			p := data.Point{Type: data.PointTypeNodeID, Key: fmt.Sprint(k), Time: now(), Text: to}
+			if r.Chance(0.35) {
+				p.Tombstone = []int{1, 3, 2}[r.Intn(3)] // a reference that has been removed (and put back) is still a reference
+			}
 			if err := send(vlib.NodeSubj(from.ID), data.Points{p}); err != nil {
 				c.Violate("store:legal-write-refused", err.Error(), nil)
 				return
@@ -293,6 +381,26 @@ func runC15(tier string, _ []string) int {
 			c.Violate("export:failed:"+classSig(), "ExportNodes failed: "+err.Error(), wit)
 			return
 		}
+		if len(y) > 20000 {
+			wit["yaml"] = string(y[:20000]) + "…"
+		}
+		if viaCLI {
+			// the same export through the command line tool: byte for byte what the library returns
+			out, se, err := runSiot(nil, "export", "-nodeID", top.ID, "-natsServer", src.Opts.NatsServer)
+			if err != nil && siotErr != nil {
+				c.Inconclusive("siot tool: " + siotErr.Error())
+				return
+			}
+			if err != nil {
+				c.Violate("export:failed:cli", fmt.Sprintf("siot export failed: %v: %.300s", err, se), wit)
+				return
+			}
+			if !bytes.Equal(out, y) {
+				c.Violate("export:cli-differs-from-library", fmt.Sprintf("siot export printed %d bytes, ExportNodes returned %d bytes for the same node", len(out), len(y)), wit)
+				return
+			}
+			c.Count("exports_through_the_command_line_tool", 1)
+		}
 		// what ExportNodes returned belongs to the caller: it must not change when further exports are
 		// made (of sub-trees of this tree, also from the other workers of this run) before it is used
 		held := append([]byte{}, y...)
@@ -305,6 +413,7 @@ func runC15(tier string, _ []string) int {
 		}
 		// ---- import
 		tnc := nc
+		tin := src
 		var parent string
 		preserve := targetKind == "other-instance-preserve"
 		switch targetKind {
@@ -323,6 +432,7 @@ func runC15(tier string, _ []string) int {
 				return
 			}
 			defer dst.Stop()
+			tin = dst
 			tnc, err = dst.Connect()
 			if err != nil {
 				c.Inconclusive(err.Error())
@@ -347,10 +457,24 @@ func runC15(tier string, _ []string) int {
 		for _, k := range beforeKids {
 			had[k.ID] = true
 		}
-		err = client.ImportNodes(tnc, parent, y, "importer", preserve)
-		if err != nil {
-			c.Violate("import:failed:"+classSig(), "ImportNodes failed on what ExportNodes produced: "+err.Error(), wit)
-			return
+		if viaCLI {
+			args := []string{"import", "-parentID", parent, "-natsServer", tin.Opts.NatsServer}
+			if preserve {
+				args = append(args, "-preserveIDs")
+			}
+			_, se, err := runSiot(y, args...)
+			if err != nil {
+				c.Violate("import:failed:cli", fmt.Sprintf("siot import failed on what the export produced: %v: %.300s", err, se), wit)
+				return
+			}
+			wit["imported_through"] = "siot import"
+			c.Count("imports_through_the_command_line_tool", 1)
+		} else {
+			err = client.ImportNodes(tnc, parent, y, "importer", preserve)
+			if err != nil {
+				c.Violate("import:failed:"+classSig(), "ImportNodes failed on what ExportNodes produced: "+err.Error(), wit)
+				return
+			}
 		}
 		afterKids, err := client.GetNodes(tnc, parent, "all", "", true)
 		if err != nil {
